@@ -288,7 +288,7 @@ def run(ctx):
     from vf.draw import draw_stratified
     from vf.runner import case_hash, load_regress
     cases = load_regress(ctx.prop, name) + gen_cfg.alternate_histories(
-        draw_stratified(strata(), 24 if ctx.quick else 300, ctx.seed), ('edited', 'semantics'))
+        draw_stratified(strata(), 32 if ctx.quick else 300, ctx.seed), ('edited', 'semantics'))
     if not ctx.quick:
         for i, case in enumerate(cases):
             case['asan'] = i % 2 == 0  # thorough: every second model under ASan+UBSan
